@@ -386,11 +386,40 @@ fn show_tx(t: &Tx) -> String {
     }
 }
 
+// ------------------------------------------------------------------ device
+
+/// QDev plus an optional grant pattern: while `pattern` is set, every call of transmit() consumes
+/// one answer of it (true = hand out a token of the queue device, false / exhausted = None), so a
+/// device that refuses and accepts alternately within one poll can be scripted.
+struct PDev {
+    q: QDev,
+    pattern: Option<std::collections::VecDeque<bool>>,
+}
+
+impl smoltcp::phy::Device for PDev {
+    type RxToken<'a> = <QDev as smoltcp::phy::Device>::RxToken<'a>;
+    type TxToken<'a> = <QDev as smoltcp::phy::Device>::TxToken<'a>;
+    fn receive(&mut self, t: Instant) -> Option<(Self::RxToken<'_>, Self::TxToken<'_>)> {
+        self.q.receive(t)
+    }
+    fn transmit(&mut self, t: Instant) -> Option<Self::TxToken<'_>> {
+        if let Some(p) = self.pattern.as_mut() {
+            if p.pop_front() != Some(true) {
+                return None;
+            }
+        }
+        self.q.transmit(t)
+    }
+    fn capabilities(&self) -> smoltcp::phy::DeviceCapabilities {
+        self.q.capabilities()
+    }
+}
+
 // ------------------------------------------------------------------ the interface under test
 
 struct Node {
     iface: Interface,
-    dev: QDev,
+    dev: PDev,
     sockets: SocketSet<'static>,
     udp: SocketHandle,
     medium: Medium,
@@ -411,7 +440,7 @@ fn mk_node(c: &Case) -> Node {
     let medium = medium_of(c);
     let mtu = c.get_i("mtu", 1500) as usize;
     let seed = u64::from_str_radix(c.get("seed").unwrap_or("0"), 16).expect("seed");
-    let mut dev = QDev::new(medium, mtu);
+    let mut dev = PDev { q: QDev::new(medium, mtu), pattern: None };
     let hw = match medium {
         Medium::Ethernet => HardwareAddress::Ethernet(EthernetAddress(OWN_MAC)),
         Medium::Ip => HardwareAddress::Ip,
@@ -452,7 +481,7 @@ fn merr(r: std::result::Result<(), smoltcp::iface::MulticastError>) -> u8 {
 }
 
 fn drain(n: &mut Node, out: &mut OpOut) {
-    for f in n.dev.drain_tx() {
+    for f in n.dev.q.drain_tx() {
         let t = parse_tx(n.medium, &f);
         out.lines.push(show_tx(&t));
         out.txs.push(t);
@@ -500,8 +529,8 @@ fn apply(n: &mut Node, op: &str) -> OpOut {
             let t: i64 = kv(r, "t").parse().unwrap();
             n.now = t;
             let f = igmp_query_frame(n.medium, a4(kv(r, "dst")), a4(kv(r, "group")), kv(r, "code").parse().unwrap());
-            n.dev.tx_budget = None;
-            n.dev.rx.push_back(f);
+            n.dev.q.tx_budget = None;
+            n.dev.q.rx.push_back(f);
             n.iface.poll_ingress_single(Instant::from_micros(t), &mut n.dev, &mut n.sockets);
             out.lines.push("ok".into());
             drain(n, &mut out);
@@ -518,8 +547,8 @@ fn apply(n: &mut Node, op: &str) -> OpOut {
                 a16(kv(r, "mcast")),
                 kv(r, "code").parse().unwrap(),
             );
-            n.dev.tx_budget = None;
-            n.dev.rx.push_back(f);
+            n.dev.q.tx_budget = None;
+            n.dev.q.rx.push_back(f);
             n.iface.poll_ingress_single(Instant::from_micros(t), &mut n.dev, &mut n.sockets);
             out.lines.push("ok".into());
             drain(n, &mut out);
@@ -528,10 +557,16 @@ fn apply(n: &mut Node, op: &str) -> OpOut {
             let r = &ws[1..];
             let t: i64 = kv(r, "t").parse().unwrap();
             n.now = t;
-            let k: i64 = kv(r, "budget").parse().unwrap();
-            n.dev.tx_budget = if k < 0 { None } else { Some(k as usize) };
+            if let Some(g) = r.iter().find_map(|w| w.strip_prefix("grants=")) {
+                n.dev.q.tx_budget = None;
+                n.dev.pattern = Some(g.chars().map(|c| c == '1').collect());
+            } else {
+                let k: i64 = kv(r, "budget").parse().unwrap();
+                n.dev.q.tx_budget = if k < 0 { None } else { Some(k as usize) };
+            }
             n.iface.poll(Instant::from_micros(t), &mut n.dev, &mut n.sockets);
-            n.dev.tx_budget = None;
+            n.dev.q.tx_budget = None;
+            n.dev.pattern = None;
             let mut o2 = OpOut::default();
             drain(n, &mut o2);
             out.lines.push(format!("p {}", o2.txs.len()));
@@ -541,8 +576,8 @@ fn apply(n: &mut Node, op: &str) -> OpOut {
         "udp" => {
             let g = ip_p(ws[1]);
             let f = udp_frame(n.medium, &g);
-            n.dev.tx_budget = None;
-            n.dev.rx.push_back(f);
+            n.dev.q.tx_budget = None;
+            n.dev.q.rx.push_back(f);
             // the last poll's time is kept: ingress of a datagram does not depend on it
             n.iface.poll_ingress_single(Instant::from_micros(n.now), &mut n.dev, &mut n.sockets);
             let s = n.sockets.get_mut::<udp::Socket>(n.udp);
@@ -768,7 +803,13 @@ impl Gen {
                 18 => 2,
                 _ => 3,
             };
-            format!("poll t={} budget={}", t, budget)
+            if self.rng.chance(1, 5) {
+                let k = self.rng.range(1, 7);
+                let bits: String = (0..k).map(|_| if self.rng.chance(3, 5) { '1' } else { '0' }).collect();
+                format!("poll t={} grants={}", t, bits)
+            } else {
+                format!("poll t={} budget={}", t, budget)
+            }
         }
     }
 }
@@ -948,7 +989,10 @@ fn oracle_case(c: &Case, fails: &mut Vec<String>, stats: &mut std::collections::
                 if out.txs.len() > 2 * GROUP_CAP + 2 {
                     fails.push(format!("mcast-poll-unbounded-egress :: {} frames in one poll", out.txs.len()));
                 }
-                let k: i64 = kv(&ws[1..], "budget").parse().unwrap();
+                let k: i64 = match ws[1..].iter().find_map(|w| w.strip_prefix("grants=")) {
+                    Some(g) => g.chars().filter(|c| *c == '1').count() as i64,
+                    None => kv(&ws[1..], "budget").parse().unwrap(),
+                };
                 if k >= 0 && out.txs.len() as i64 > k {
                     fails.push(format!("mcast-poll-ignores-device-refusal :: {} frames with budget {}", out.txs.len(), k));
                 }
@@ -961,6 +1005,7 @@ fn oracle_case(c: &Case, fails: &mut Vec<String>, stats: &mut std::collections::
         }
         for t in &out.txs {
             check_tx(t, &sh, medium, fails);
+            check_membership(t, &sh, fails);
             if let Kind::IgmpReport(_, g) = &t.kind {
                 if ws[0] == "poll" {
                     igmp_reported.push(*g);
@@ -992,6 +1037,7 @@ fn oracle_case(c: &Case, fails: &mut Vec<String>, stats: &mut std::collections::
         };
         for t in &out.txs {
             check_tx(t, &sh, medium, fails);
+            check_membership(t, &sh, fails);
         }
         total += out.txs.len();
         if out.txs.is_empty() {
@@ -1010,6 +1056,35 @@ fn oracle_case(c: &Case, fails: &mut Vec<String>, stats: &mut std::collections::
         }
     }
     bump("cases", 1);
+}
+
+/// a membership report names only groups the interface is a member of at that moment, a leave
+/// only groups it is not (property C11: nothing is answered on behalf of an unjoined group)
+fn check_membership(t: &Tx, sh: &Shadow, fails: &mut Vec<String>) {
+    match &t.kind {
+        Kind::IgmpReport(_, g) => {
+            if !sh.member(&IpAddress::v4(g[0], g[1], g[2], g[3])) {
+                fails.push(format!("mcast-report-for-left-group :: `{}` although the group is not joined", show_tx(t)));
+            }
+        }
+        Kind::IgmpLeave(g) => {
+            if sh.joined.contains(&IpAddress::v4(g[0], g[1], g[2], g[3])) {
+                fails.push(format!("mcast-leave-for-joined-group :: `{}` although the group is joined", show_tx(t)));
+            }
+        }
+        Kind::MldReport(recs) => {
+            for (ty, a) in recs {
+                let g = IpAddress::Ipv6(Ipv6Address::from(*a));
+                if (*ty == 2 || *ty == 3) && !sh.member(&g) {
+                    fails.push(format!("mcast-report-for-left-group :: `{}` although {} is not joined", show_tx(t), hex(a)));
+                }
+                if *ty == 4 && sh.joined.contains(&g) {
+                    fails.push(format!("mcast-leave-for-joined-group :: `{}` although {} is joined", show_tx(t), hex(a)));
+                }
+            }
+        }
+        Kind::Other(_) => {}
+    }
 }
 
 /// property C10 for one multicast control frame
